@@ -15,10 +15,26 @@ pub fn run_seed(verif_seed: u64, prop: usize, fi: bool, idx: u64) -> u64 {
     mix(&[verif_seed, prop as u64, fi as u64, idx])
 }
 
+/// Run `f` on a fresh OS thread and wait for it. A library that keeps per-thread state (a memo in a
+/// `thread_local!`) would otherwise carry it from one run or replay to the next and make replays depend
+/// on what the process did before; a fresh thread starts every run from the same library state.
+pub fn hermetic<T: Send>(f: impl FnOnce() -> T + Send) -> T {
+    std::thread::scope(|sc| {
+        std::thread::Builder::new()
+            .stack_size(16 << 20)
+            .spawn_scoped(sc, f)
+            .expect("cannot spawn run thread")
+            .join()
+            .unwrap_or_else(|e| std::panic::resume_unwind(e))
+    })
+}
+
 pub fn run_one(verif_seed: u64, prop: usize, fi: bool, idx: u64) -> RunOut {
-    let seed = run_seed(verif_seed, prop, fi, idx);
-    let w = World::new(seed, profile_for(prop, fi), armed_for(prop));
-    w.run()
+    hermetic(|| {
+        let seed = run_seed(verif_seed, prop, fi, idx);
+        let w = World::new(seed, profile_for(prop, fi), armed_for(prop));
+        w.run()
+    })
 }
 
 pub struct ReplayOut {
@@ -31,6 +47,10 @@ pub struct ReplayOut {
 
 /// Execute a script against a fresh executor: no PRNG, no clock.
 pub fn replay(script: &[Step], armed: u32, record_roots: bool) -> ReplayOut {
+    hermetic(|| replay_here(script, armed, record_roots))
+}
+
+fn replay_here(script: &[Step], armed: u32, record_roots: bool) -> ReplayOut {
     let mut ex = Exec::new(armed);
     ex.record_roots = record_roots;
     let mut out = ReplayOut { violation: None, foreign: None, digest: 0, steps_run: 0, roots: vec![] };
@@ -55,6 +75,10 @@ pub fn replay(script: &[Step], armed: u32, record_roots: bool) -> ReplayOut {
 
 /// Re-execute a script and return the FEN of the first recorded position whose census key is `key`.
 pub fn replay_watch(script: &[Step], armed: u32, key: (u64, u64)) -> Option<String> {
+    hermetic(|| replay_watch_here(script, armed, key))
+}
+
+fn replay_watch_here(script: &[Step], armed: u32, key: (u64, u64)) -> Option<String> {
     let mut ex = Exec::new(armed);
     ex.watch_key = Some(key);
     for s in script {
